@@ -148,6 +148,22 @@ def _closest(ctx) -> None:
         ctx.ob("ORDER.resolution", f"Time.{name}", not lossy,
                f"`{nun(t)}` orders the candidates by {lossy or 'a full-resolution quantity'}" +
                ("; a truncated distance cannot tell apart candidates within the same unit" if lossy else ""), m.loc(t))
+        # AbsoluteDuration only *presents* magnitudes (total_seconds() = abs(total)); its native timedelta slots keep the
+        # sign, and the rich comparison of two Durations is timedelta's: the operands must be magnitude accessors
+        for side in (t.left, t.comparators[0]):
+            side = core.strip_casts(side)
+            is_acc = isinstance(side, ast.Call) and isinstance(side.func, ast.Attribute) and \
+                (side.func.attr.startswith("total_") or side.func.attr.startswith("in_")) and "self.diff(" in nun(side.func.value)
+            is_abs = isinstance(side, ast.Call) and nun(side.func) == "abs"
+            bare = isinstance(side, ast.Call) and isinstance(side.func, ast.Attribute) and side.func.attr == "diff"
+            if bare:
+                ctx.ob("ORDER.magnitude", f"Time.{name}/{nun(side)}", False,
+                       f"`{nun(t)}` compares the Duration objects themselves: timedelta ordering uses the signed native value, so an "
+                       f"earlier candidate always counts as nearer than a later one", m.loc(t))
+            elif is_acc or is_abs:
+                ctx.ob("ORDER.magnitude", f"Time.{name}/{nun(side)[:40]}", True, "distance compared as a non-negative number", m.loc(t))
+            else:
+                ctx.unverified("ORDER.magnitude", f"Time.{name}", f"operand `{nun(side)}`", m.loc(t))
         l, r = nun(t.left), nun(t.comparators[0])
         sym = l.replace("dt1", "X") == r.replace("dt2", "X") and "self.diff(dt1)" in l and "self.diff(dt2)" in r
         ok = isinstance(t.ops[0], op) and sym and nun(ifs[0].body[0]) == "return dt1" and nun(core.body_no_doc(fn)[-1]) == "return dt2"
